@@ -1,18 +1,20 @@
 (* Property C16 — TUN write-side coalescing (GRO) is lossless.
    Only statements, closed by `exact`, with Print Assumptions.
-   Objects: Gro.Model.handle_gro = mirror of handleGRO (state after the call:
-   s_err, s_bufs, s_tw = toWrite, ghost s_trace = groResult of every packet);
-   Gro.KernelSpec.kernel_segment = what the kernel makes of a written buffer;
-   Gro.Spec.holdsb = the property on observable behaviour.
-   What is a theorem for ALL batches: bookkeeping, pass-through (packet bytes;
-   header zero or untouched), payload bytes and segment boundaries of every
-   coalesced buffer, descriptor / length fields, validity of the checksums of the
-   kernel's segments, and equality of the re-segmented packets with the inputs in
-   every compared header byte (UDP, TCP append and prepend; per buffer and as a
-   multiset over the batch).  The full statement as the property words it is
-   refuted by the faithful model (IPv6 flow label, PSH on prepend, zero-length UDP
-   order, stale virtio header, lengths past 65535): see the *_refuted theorems. *)
-From WG Require Import Base.Prelude Gen.Constants Gro.Bytes Gro.Model Gro.KernelSpec Gro.Spec Gro.Proofs Gro.Csum Gro.Headers Gro.HeadersTcp Gro.Lossless Gro.Holds Gro.Examples.
+   Objects: Gro.Model.handle_gro = mirror of handleGRO of the CURRENT tree (with the
+   fixes 951b0e7 flow label, 4a9316a 65535 guard, b918254 header of a deleted item,
+   ad814da PSH on prepend); Gro.OldModel.Old.handle_gro = the code before them
+   (state after the call: s_err, s_bufs, s_tw = toWrite, ghost s_trace = groResult of
+   every packet); Gro.KernelSpec.kernel_segment = what the kernel makes of a written
+   buffer; Gro.Spec.holdsb = the property on observable behaviour.
+   Theorems for ALL batches about the current code: bookkeeping, pass-through in full,
+   payloads and boundaries, descriptor / lengths / checksums, equality of the
+   re-segmented packets with the inputs in every compared byte incl. the IPv6 flow
+   label and the PSH bit (per buffer and as a multiset over the batch), and all clauses
+   of holdsb but UDP order as one boolean.  UDP order is refuted as stated (known
+   finding gro-udp-noncandidate-overtaken); its restricted form is a statement only.
+   The four repaired defects stay machine-checked as refutations about Old. *)
+From WG Require Import Base.Prelude Gen.Constants Gro.Bytes Gro.Model Gro.OldModel Gro.KernelSpec Gro.Spec Gro.Proofs Gro.Csum Gro.Headers Gro.HeadersTcp Gro.Lossless Gro.Holds Gro.Examples.
+From WG Require Gro.Check.
 Local Open Scope N_scope.
 
 Theorem C16_constants :
@@ -43,26 +45,17 @@ Theorem C16_members_partition : forall tr j i,
 Proof. exact members_spec. Qed.
 Print Assumptions C16_members_partition.
 
-(* A written buffer nothing was merged into carries its input packet unmodified;
-   the virtio header in front is all-zero or (see C16_passthrough_zero_hdr_refuted) untouched. *)
-Theorem C16_gro_passthrough_partial : forall (canUDP : bool) (offset : N) (bufs : list buf) (j : N),
+(* gro_passthrough, in full: a written buffer nothing was merged into carries its input
+   packet unmodified and an all-zero virtio header (also the item deleted after an
+   invalid checksum: fix b918254). *)
+Theorem C16_gro_passthrough : forall (canUDP : bool) (offset : N) (bufs : list buf) (j : N),
   let s := handle_gro canUDP offset bufs in
   s_err s = false -> In j (s_tw s) -> ~ merged_into (s_trace s) j ->
-  b_pkt (get_buf (s_bufs s) j) = b_pkt (get_buf bufs j) /\
-  (b_hdr (get_buf (s_bufs s) j) = zero_vhdr \/ b_hdr (get_buf (s_bufs s) j) = b_hdr (get_buf bufs j)).
-Proof. exact gro_passthrough_partial. Qed.
-Print Assumptions C16_gro_passthrough_partial.
+  b_pkt (get_buf (s_bufs s) j) = b_pkt (get_buf bufs j) /\ b_hdr (get_buf (s_bufs s) j) = zero_vhdr.
+Proof. exact gro_passthrough. Qed.
+Print Assumptions C16_gro_passthrough.
 
-Theorem C16_passthrough_zero_hdr_refuted :
-  exists bufs j, let s := handle_gro true 16 bufs in
-    s_err s = false /\ In j (s_tw s) /\ merged_into_b (s_trace s) j = false /\
-    b_pkt (get_buf (s_bufs s) j) = b_pkt (get_buf bufs j) /\ b_hdr (get_buf (s_bufs s) j) <> zero_vhdr.
-Proof. exact passthrough_zero_hdr_refuted. Qed.
-Print Assumptions C16_passthrough_zero_hdr_refuted.
-
-(* Per-merge lemma, payload level, for UDP append, TCP append and TCP prepend:
-   if the item described its buffer (chunks at gsoSize = payloads of its members)
-   it still does after the merge, with the new packet appended / prepended. *)
+(* Per-merge lemma, payload level, for UDP append, TCP append and TCP prepend. *)
 Theorem C16_merge_keeps_payloads : forall inp tcp pkt k off v6 p it it' bufs bufs' mem,
   merged_ok tcp pkt k off v6 p it it' bufs bufs' ->
   pkt = b_pkt (get_buf inp k) -> b_pkt (get_buf bufs k) = pkt ->
@@ -72,9 +65,7 @@ Theorem C16_merge_keeps_payloads : forall inp tcp pkt k off v6 p it it' bufs buf
 Proof. exact merge_item_ok. Qed.
 Print Assumptions C16_merge_keeps_payloads.
 
-(* Losslessness of payloads and boundaries: a buffer something was merged into is
-   written with a GSO virtio header, and cutting its payload at gso_size after
-   hdr_len yields exactly the payloads of its members, in order (>= 2 of them). *)
+(* Payloads and boundaries of every coalesced buffer. *)
 Theorem C16_gro_payloads_lossless : forall (canUDP : bool) (offset : N) (bufs : list buf) (j : N),
   let s := handle_gro canUDP offset bufs in
   s_err s = false -> merged_into (s_trace s) j ->
@@ -87,26 +78,18 @@ Theorem C16_gro_payloads_lossless : forall (canUDP : bool) (offset : N) (bufs : 
 Proof. exact gro_payloads_lossless. Qed.
 Print Assumptions C16_gro_payloads_lossless.
 
-(* Headers, first half of gro_headers_valid: within the capacity bound every
-   coalesced buffer is at most 65535 bytes, its descriptor is well-formed (flags,
-   type for the IP version / protocol, hdr_len = IP + transport header as the
-   packet states them, csum_start/offset, gso_size >= 1 and smaller than the
-   payload) and the IP total/payload length and UDP length fields are right.
-   (That the kernel then produces valid checksums: C16_gro_segment_checksums_valid.) *)
+(* gro_headers_valid, for ANY buffer capacity (the 65535 guard, fix 4a9316a, replaces the
+   capacity hypothesis): every coalesced buffer is at most 65535 bytes, has a well-formed
+   descriptor and correct IP / UDP length fields ... *)
 Theorem C16_gro_descriptor_lengths_valid : forall (canUDP : bool) (offset : N) (bufs : list buf) (j : N),
-  (forall b, In b bufs -> b_cap b <= 65535 + 2 * offset) ->
   let s := handle_gro canUDP offset bufs in
   s_err s = false -> merged_into (s_trace s) j ->
   descriptor_ok (get_buf (s_bufs s) j) = true /\ lengths_ok (get_buf (s_bufs s) j) = true.
 Proof. exact gro_descriptor_lengths_valid. Qed.
 Print Assumptions C16_gro_descriptor_lengths_valid.
-
-(* Headers, second half of gro_headers_valid: within the capacity bound the kernel
-   makes of every coalesced buffer exactly as many segments as packets were merged
-   into it, and every one of them has a valid IPv4 header checksum and a valid
-   TCP/UDP checksum (completed from the pseudo-header sum the accounting left). *)
+(* ... and the kernel makes exactly one segment per merged packet, each with a valid IPv4
+   header checksum and a valid TCP/UDP checksum. *)
 Theorem C16_gro_segment_checksums_valid : forall (canUDP : bool) (offset : N) (bufs : list buf) (j : N),
-  (forall b, In b bufs -> b_cap b <= 65535 + 2 * offset) ->
   let s := handle_gro canUDP offset bufs in
   s_err s = false -> merged_into (s_trace s) j ->
   let b := get_buf (s_bufs s) j in
@@ -116,105 +99,104 @@ Theorem C16_gro_segment_checksums_valid : forall (canUDP : bool) (offset : N) (b
 Proof. exact gro_segment_checksums_valid. Qed.
 Print Assumptions C16_gro_segment_checksums_valid.
 
-(* UDP flows are lossless in full (DESIGN's first stage of gro_lossless): within the
-   capacity bound the datagrams the kernel makes of a coalesced UDP buffer are, in
-   order, the datagrams merged into it, equal in every byte the property compares
-   (canon_gen: all but IPv4 total length / ID / header checksum, IPv6 payload length,
-   UDP length and checksum; the IPv6 flow label masked, which the model loses, F8). *)
+(* Per coalesced buffer: the kernel's segments are, in order, the merged packets, equal in
+   every compared byte (canon = the property's exceptions zeroed: IPv4 total length / ID /
+   header checksum, IPv6 payload length, TCP window / checksum (reserved bits, urgent
+   pointer), UDP length / checksum; IPv6 bytes 0-3 incl. the flow label ARE compared, so is
+   the TCP flags byte incl. PSH).  UDP: *)
 Theorem C16_gro_udp_lossless : forall (canUDP : bool) (offset : N) (bufs : list buf) (j : N),
-  (forall b, In b bufs -> b_cap b <= 65535 + 2 * offset) ->
   let s := handle_gro canUDP offset bufs in
   s_err s = false -> merged_into (s_trace s) j ->
   let b := get_buf (s_bufs s) j in
   v_gso (dec_vhdr (b_hdr b)) = GSO_UDP_L4 ->
-  map (canon_gen true true) (kernel_segment (b_hdr b) (b_pkt b)) =
-  map (fun m => canon_gen true true (b_pkt (get_buf bufs m))) (members (s_trace s) j).
+  map canon (kernel_segment (b_hdr b) (b_pkt b)) =
+  map (fun m => canon (b_pkt (get_buf bufs m))) (members (s_trace s) j).
 Proof. exact gro_udp_lossless. Qed.
 Print Assumptions C16_gro_udp_lossless.
-
-(* TCP flows are lossless in full (DESIGN's TCP append and prepend stages): within the
-   capacity bound, for input bytes < 256, the segments the kernel makes of a coalesced TCP
-   buffer are, in sequence order, the segments merged into it -- equal in every byte the
-   property compares: addresses, ports, sequence (seq_0 + i*gso_size, incl. wrap at 2^32)
-   and acknowledgement numbers, data offset, flags (PSH masked: finding), options,
-   payload, and the IP header fields; TCP window / checksum / reserved bits / urgent
-   pointer, IPv4 total length / ID / checksum, IPv6 payload length and flow label (F8)
-   are the fields not compared. *)
+(* TCP, append and prepend, incl. sequence numbers mod 2^32 (input bytes < 256).  PSH: only
+   the last member of a buffer can carry it (PSH ends appending; a PSH segment is never
+   prepended), the merged header carries the last member's PSH (carried over on prepend),
+   and the kernel keeps PSH on the last segment only -- so the flags bytes agree exactly. *)
 Theorem C16_gro_tcp_lossless : forall (canUDP : bool) (offset : N) (bufs : list buf) (j : N),
-  (forall b, In b bufs -> b_cap b <= 65535 + 2 * offset) -> bytes_ok bufs ->
+  bytes_ok bufs ->
   let s := handle_gro canUDP offset bufs in
   s_err s = false -> merged_into (s_trace s) j ->
   let b := get_buf (s_bufs s) j in
   v_gso (dec_vhdr (b_hdr b)) <> GSO_UDP_L4 ->
-  map (canon_gen true true) (kernel_segment (b_hdr b) (b_pkt b)) =
-  map (fun m => canon_gen true true (b_pkt (get_buf bufs m))) (members (s_trace s) j).
+  map canon (kernel_segment (b_hdr b) (b_pkt b)) =
+  map (fun m => canon (b_pkt (get_buf bufs m))) (members (s_trace s) j).
 Proof. exact gro_tcp_lossless. Qed.
 Print Assumptions C16_gro_tcp_lossless.
 
-(* gro_lossless, assembled over the whole batch: the packets the kernel makes of all
-   written buffers are, as a multiset, the input packets, equal in every compared byte
-   (third clause of holdsb with the IPv6 flow label and the PSH bit masked -- the two
-   fields the model is shown to lose).  Hypotheses: capacity bound (F5), input bytes
-   < 256, and the 10 bytes in front of every packet zero (else finding
-   gro-stale-virtio-hdr-after-invalid-csum-item applies). *)
-Theorem C16_gro_lossless_modulo : forall (canUDP : bool) (offset : N) (bufs : list buf),
-  (forall b, In b bufs -> b_cap b <= 65535 + 2 * offset) -> bytes_ok bufs ->
-  (forall b, In b bufs -> b_hdr b = zero_vhdr) ->
+(* gro_lossless: over the whole batch the re-segmented packets are, as a multiset, the input
+   packets (third clause of holdsb, nothing masked); any capacities, any bytes in front. *)
+Theorem C16_gro_lossless : forall (canUDP : bool) (offset : N) (bufs : list buf),
+  bytes_ok bufs ->
   let s := handle_gro canUDP offset bufs in
   s_err s = false ->
-  floweq_gen true true bufs (s_tw s) (s_bufs s) = true.
-Proof. exact gro_lossless_modulo. Qed.
-Print Assumptions C16_gro_lossless_modulo.
+  floweq_ok bufs (s_tw s) (s_bufs s) = true.
+Proof. exact gro_lossless. Qed.
+Print Assumptions C16_gro_lossless.
 
-(* Summary: every clause of holdsb except UDP order (flow equivalence with the IPv6 flow
-   label and the PSH bit masked) as one boolean, true for every batch. *)
+(* Summary: every clause of holdsb except UDP order, as one boolean. *)
 Theorem C16_gro_holds_core : forall (canUDP : bool) (offset : N) (bufs : list buf),
-  (forall b, In b bufs -> b_cap b <= 65535 + 2 * offset) -> bytes_ok bufs ->
-  (forall b, In b bufs -> b_hdr b = zero_vhdr) ->
+  bytes_ok bufs ->
   let s := handle_gro canUDP offset bufs in
   s_err s = false ->
   bookkeeping_ok bufs (s_tw s) (s_bufs s) && passthrough_ok bufs (s_tw s) (s_bufs s)
-  && floweq_gen true true bufs (s_tw s) (s_bufs s) && headers_valid_ok (s_tw s) (s_bufs s) = true.
+  && floweq_ok bufs (s_tw s) (s_bufs s) && headers_valid_ok (s_tw s) (s_bufs s) = true.
 Proof. exact gro_holds_core. Qed.
 Print Assumptions C16_gro_holds_core.
 
-(* NOT proved: preservation of UDP order for the datagrams the coalescer considers
-   (refuted as stated, C16_refuted_by_udp_order; evaluated on every generated batch). *)
-
-(* The property in full (holdsb on every batch within the capacity bound) is NOT a
-   theorem: the faithful model refutes it. *)
-Definition C16_gro_lossless_statement : Prop := gro_lossless_statement.
-Theorem C16_gro_lossless_refuted : ~ C16_gro_lossless_statement.
-Proof. exact gro_lossless_refuted. Qed.
-Print Assumptions C16_gro_lossless_refuted.
-
-(* ... by the IPv6 flow label only (finding F8) *)
-Theorem C16_refuted_only_by_flow_label :
-  preb 16 ex_flowlabel = true /\ holds ex_flowlabel = false /\ holds_modulo true false ex_flowlabel = true.
-Proof. exact refuted_only_by_flow_label. Qed.
-Print Assumptions C16_refuted_only_by_flow_label.
-(* ... by the PSH bit lost on prepend only *)
-Theorem C16_refuted_only_by_psh :
-  preb 16 ex_psh = true /\ holds ex_psh = false /\ holds_modulo false true ex_psh = true.
-Proof. exact refuted_only_by_psh. Qed.
-Print Assumptions C16_refuted_only_by_psh.
-(* ... by a zero-length UDP datagram overtaken within its flow *)
+(* UDP order (fourth clause).  As the property words it, it is refuted by the current code
+   (known finding gro-udp-noncandidate-overtaken: a zero-length datagram is overtaken; it is
+   the ONLY clause of holdsb that fails there): *)
 Theorem C16_refuted_by_udp_order :
   preb 16 ex_udp0 = true /\ holds ex_udp0 = false /\
-  (let s := run ex_udp0 in udp_order_ok ex_udp0 (s_tw s) (s_bufs s)) = false.
+  (let s := run ex_udp0 in udp_order_ok ex_udp0 (s_tw s) (s_bufs s)) = false /\
+  (let s := run ex_udp0 in bookkeeping_ok ex_udp0 (s_tw s) (s_bufs s) && passthrough_ok ex_udp0 (s_tw s) (s_bufs s)
+                           && floweq_ok ex_udp0 (s_tw s) (s_bufs s) && headers_valid_ok (s_tw s) (s_bufs s)) = true.
 Proof. exact refuted_by_udp_order. Qed.
 Print Assumptions C16_refuted_by_udp_order.
-(* the capacity bound is needed: beyond it the 16-bit length fields wrap (finding F5) *)
-Theorem C16_length_wraps_with_large_cap :
+Definition C16_gro_holdsb_statement : Prop := gro_lossless_statement.
+Theorem C16_gro_holdsb_refuted : ~ C16_gro_holdsb_statement.
+Proof. exact gro_lossless_refuted. Qed.
+Print Assumptions C16_gro_holdsb_refuted.
+(* NOT proved (statement only; evaluated on every generated batch): order is preserved among
+   the datagrams of a flow that the coalescer considers (candidates with a non-empty payload). *)
+Definition C16_gro_udp_order_restricted_statement : Prop :=
+  forall canUDP offset bufs, let s := handle_gro canUDP offset bufs in s_err s = false ->
+    udp_order_gen WG.Gro.Check.keep_eligible bufs (s_tw s) (s_bufs s) = true.
+
+(* History of the four repaired defects: refuted for the code before the fixes (Old),
+   the same scenarios satisfy the whole specification now. *)
+Theorem C16_old_refuted_only_by_flow_label :
+  preb 16 ex_flowlabel = true /\ holds_old ex_flowlabel = false /\ holds_modulo_old true false ex_flowlabel = true.
+Proof. exact old_refuted_only_by_flow_label. Qed.
+Print Assumptions C16_old_refuted_only_by_flow_label.
+Theorem C16_old_refuted_only_by_psh :
+  preb 16 ex_psh = true /\ holds_old ex_psh = false /\ holds_modulo_old false true ex_psh = true.
+Proof. exact old_refuted_only_by_psh. Qed.
+Print Assumptions C16_old_refuted_only_by_psh.
+Theorem C16_old_passthrough_zero_hdr_refuted :
+  exists bufs j, let s := Old.handle_gro true 16 bufs in
+    s_err s = false /\ In j (s_tw s) /\ merged_into_b (s_trace s) j = false /\
+    b_pkt (get_buf (s_bufs s) j) = b_pkt (get_buf bufs j) /\ b_hdr (get_buf (s_bufs s) j) <> zero_vhdr.
+Proof. exact old_passthrough_zero_hdr_refuted. Qed.
+Print Assumptions C16_old_passthrough_zero_hdr_refuted.
+Theorem C16_old_length_wraps_with_large_cap :
   exists bufs, forallb (fun b => (b_cap b =? 131072) && (len (b_pkt b) =? 1240)) bufs = true /\
-    let s := run bufs in s_err s = false /\ In 0 (s_tw s) /\
+    let s := run_old bufs in s_err s = false /\ In 0 (s_tw s) /\
     len (b_pkt (get_buf (s_bufs s) 0)) = 66040 /\ l3_len (b_pkt (get_buf (s_bufs s) 0)) = 504 /\
     holdsb bufs (s_tw s) (s_bufs s) = false.
-Proof. exact length_wraps_with_large_cap. Qed.
-Print Assumptions C16_length_wraps_with_large_cap.
+Proof. exact old_length_wraps_with_large_cap. Qed.
+Print Assumptions C16_old_length_wraps_with_large_cap.
+Theorem C16_fixed_scenarios_hold :
+  holds ex_flowlabel = true /\ holds ex_big = true /\ holds ex_stale = true /\ holds ex_psh = true.
+Proof. exact fixed_scenarios_hold. Qed.
+Print Assumptions C16_fixed_scenarios_hold.
 
-(* Non-vacuity: batches on which coalescing happens (append, prepend across the
-   sequence-number wrap, mixed flows, the capacity boundary) and holdsb is true. *)
+(* Non-vacuity: batches on which coalescing happens and holdsb is true. *)
 Example C16_nonvacuous_mixed : s_tw (run ex_mixed) = [0; 1; 6] /\ holds ex_mixed = true /\
   length (segments (s_tw (run ex_mixed)) (s_bufs (run ex_mixed))) = 8%nat.
 Proof. exact ex_mixed_ok. Qed.
